@@ -111,7 +111,9 @@ def doRoute : P String := do
   let _cap ← nat
   let routes ← pRoutes
   let chunks ← pChunks
-  let (tr, r) := route srcOps routes 64 (.l4 [] 0 0 false (.raw chunks false))
+  -- `L1`: the socket reports the end of the stream together with the last bytes of the script
+  let last := (← tok) == "L1"
+  let (tr, r) := route srcOps routes 64 (.l4 [] 0 0 false (.raw chunks last))
   return showTrace tr r
 
 end L4.Drv
